@@ -83,6 +83,12 @@ def request_ids(ctx, fnode):
     return out
 
 
+def _late_shares(ctx, rep):
+    rep.rule("R19.7", "which label a value travels under is decided by its exact type (a tuple subclass is a reference, label 4, not "
+                      "label 2) (= R03.1)")
+    K.share(ctx, rep, "c03", lambda o: o.rule == "R03.1", "R19.7", floor=3)
+
+
 def run(ctx, rep):
     rep.rule("R19.1", "tag table by role: for every registered type and length/value class the writer emits the published tag "
                       "and length form (shortest form = the published interval map)")
@@ -97,6 +103,7 @@ def run(ctx, rep):
     b = ref["brine"]
     m = c04.Model(ctx)
     K.share(ctx, rep, "c04", lambda o: o.rule in ("R04.1", "R04.2"), "R19.6", floor=8)
+    _late_shares(ctx, rep)
     rows = 0
 
     # ------------------------------------------------------------------ R19.1
